@@ -1044,3 +1044,56 @@ Proof.
 Qed.
 Theorem nl_ok_valid s : valid s -> nl_ok s.
 Proof. intros (cs & Hcs & ->) q Hq. apply (nl_ok_chars cs Hcs q Hq). Qed.
+
+(* ------------------------------------------------------------------ lbuf_paragraphbeg *)
+(* the line is exactly "\n" *)
+Definition blankb (s : bytes) : bool := if list_eq_dec N.eq_dec s [10%N] then true else false.
+Lemma chop_nonnil' t : t <> [] -> chop t <> [].
+Proof. intro H. rewrite chop_cons by exact H. discriminate. Qed.
+Lemma chop_blank s : nonul s ->
+  match chop s with [c] => if list_eq_dec N.eq_dec c [10%N] then true else false | _ => false end = blankb s.
+Proof.
+  intro Hn. unfold blankb. destruct (list_eq_dec N.eq_dec s [10%N]) as [->|Hne]; [reflexivity|].
+  destruct s as [|x t]; [reflexivity|]. rewrite chop_cons by discriminate.
+  destruct (nonul_next (x :: t) Hn ltac:(discriminate)) as (E1 & E3 & E2). rewrite E1.
+  destruct (skipn (uc_next (x :: t)) (x :: t)) as [|y r] eqn:Es.
+  - rewrite chop_nil. rewrite hd_chr_ne by discriminate. rewrite E1.
+    assert (Hall : firstn (uc_next (x :: t)) (x :: t) = x :: t).
+    { pose proof (firstn_skipn (uc_next (x :: t)) (x :: t)) as Hfs. rewrite Es, app_nil_r in Hfs. exact Hfs. }
+    rewrite Hall. destruct (list_eq_dec N.eq_dec (x :: t) [10%N]); [contradiction|reflexivity].
+  - pose proof (chop_nonnil' (y :: r) ltac:(discriminate)) as Hc. destruct (chop (y :: r)); [contradiction|reflexivity].
+Qed.
+Lemma is_blank_line_rowidx lines r : Forall nonul lines ->
+  is_blank_line (map chop lines) r = option_map (fun i => blankb (nthl lines i)) (rowidx lines r).
+Proof.
+  intro Hn. unfold is_blank_line. rewrite getl_rowidx. unfold rowidx, blen. rewrite map_length.
+  destruct (Z.ltb_spec r 0); destruct (Z.leb_spec 0 r); try lia; cbn [orb andb]; [reflexivity|].
+  rewrite Z.geb_leb. destruct (Z.leb_spec (Z.of_nat (length lines)) r); destruct (Z.ltb_spec r (Z.of_nat (length lines))); try lia; [reflexivity|].
+  cbn [option_map]. rewrite chop_blank by (apply nthl_nonul; exact Hn). reflexivity.
+Qed.
+
+Lemma wrap_u8_byte' : forall c, (c < 256)%N -> wrap U8 (Z.of_N c) = Z.of_N c.
+Proof. byte_fact. Qed.
+(* strcmp("\n", s) == 0 exactly when s is "\n" *)
+Lemma strcmp_nl m g b s : str_at m g [10%N] -> str_at m b s -> nonul s ->
+  exists x, do_builtin_m BStrcmp [VPtr g 0; VPtr b 0] m = Ok (VInt x, m) /\ (x =? 0) = blankb s.
+Proof.
+  intros Hg Hs Hn. cbn [do_builtin_m do_builtin].
+  change 0 with (Z.of_nat 0). rewrite (blk_from_str m g _ O Hg) by (cbn; lia). rewrite (blk_from_str m b s O Hs) by lia.
+  cbn [bind skipn]. change (cstr_block (zb [10%N])) with [VInt 10; VInt 0]. cbn [length].
+  destruct s as [|c t].
+  - cbn. eexists; split; reflexivity.
+  - inversion Hn as [|? ? [Hc0 Hc] Ht]; subst. unfold cstr_block, zb. cbn [map app length Nat.max cmp_cells].
+    change (wrap U8 10) with 10. rewrite (wrap_u8_byte' c Hc).
+    destruct (Z.ltb_spec 10 (Z.of_N c)).
+    { cbn [bind]. eexists; split; [reflexivity|]. unfold blankb. destruct (list_eq_dec N.eq_dec (c :: t) [10%N]) as [E|E]; [injection E as -> _; lia|reflexivity]. }
+    destruct (Z.ltb_spec (Z.of_N c) 10).
+    { cbn [bind]. eexists; split; [reflexivity|]. unfold blankb. destruct (list_eq_dec N.eq_dec (c :: t) [10%N]) as [E|E]; [injection E as -> _; lia|reflexivity]. }
+    assert (c = 10%N) as -> by lia. change (10 =? 0) with false. cbn iota.
+    destruct t as [|e t'].
+    + cbn. eexists; split; reflexivity.
+    + inversion Ht as [|? ? [He0 He] Ht']; subst.
+      cbn [map app cmp_cells]. change (wrap U8 0) with 0. rewrite (wrap_u8_byte' e He).
+      destruct (Z.ltb_spec 0 (Z.of_N e)); [|lia]. cbn [bind]. eexists; split; [reflexivity|].
+      unfold blankb. destruct (list_eq_dec N.eq_dec (10%N :: e :: t') [10%N]) as [E|E]; [discriminate|reflexivity].
+Qed.
